@@ -112,7 +112,7 @@ def selectF (fs : List (RVal D × AddFieldMeta)) (res : RResult D) : Except Plan
       .ok (metas, mapRows (fun r =>
         (selectRow fns r.vals).map fun cur => { r with vals := cur.drop r.vals.length }) res.2)
 
-/-- replace_field_report_filter.go:23-67 -/
+/-- replace_field_report_filter.go:23-72 -/
 def replaceF (urn : String) (v : RVal D) (afm : AddFieldMeta) (res : RResult D) : Except PlanErr (RResult D) :=
   match findField urn res.1 with
   | none => .error .replaceMissing
@@ -120,7 +120,9 @@ def replaceF (urn : String) (v : RVal D) (afm : AddFieldMeta) (res : RResult D) 
     match planRVal O v res.1 >>= prepareK afm with
     | .error e => .error e
     | .ok (fm, fn) =>
-      .ok (res.1.set idx fm,
+      -- the replacing field must not collide with another existing field (fix 946fce4)
+      if fm.urn ≠ urn ∧ hasField res.1 fm.urn then .error .replaceDup
+      else .ok (res.1.set idx fm,
         mapRows (fun r => (fn r.vals).bind fun x =>
           if idx < r.vals.length then some { r with vals := r.vals.set idx x } else none) res.2)
 
@@ -598,7 +600,7 @@ def reductionFallback (afm : AddFieldMeta) (period from_ to : Int) (fb : Option 
         match newFieldMeta afm.urn m.dt m.required unit afm.custom with
         | .error e => .error e
         | .ok fm =>
-          let n := if to > from_ then ((to - periodStart period from_) / period + 2).toNat else 0
+          let n := ((to - periodStart period from_) / period + 2).toNat
           .ok (fm, (alignedTimestamps period from_ to n (periodStart period from_)).map fun t =>
             (fn .nil).map fun x => { ts := t, val := x })
   | some _ => .error .redFallbackNotStatic
